@@ -20,14 +20,51 @@ def register(w):
     Q0, ACC0 = "self._event_queue", "self.g_accepted"
     APP0 = f"appended_only(old({Q0}), old({ACC0}), {Q0}, {ACC0})"
 
-    @w.contract(BI + "_execute_transition", props=["C01", "C03", "C07"])
+    @w.contract(BI + "_resolve_target_state_node", props=["C07"])
     def _(c):
-        c.bounded_only = True
+        c.trusted = "assumed: resolves a transition's target string to a state of the machine or None (string search over the tree; bounded: C01/C18 drivers); may normalise transition.target_str"
+        c.no_runtime = True
+        c.param("transition", Trans).returns(Node)
+        c.mod("Trans.target_str")
+        c.may_raise("Exception")
+
+    # ---- the asyncio transition step: same transaction as the sync one, in one function (C07 atomicity, C05) ----
+    @w.contract(BI + "_execute_transition", props=["C01", "C03", "C07", "C05"])
+    def _(c):
         c.param("transition", Trans).param("event", Ev)
         c.mod(*STATE_ALL)
-        c.req(f"legal({A})", "transition != None and transition.source in " + A)
-        c.ens(f"legal({A})", label="legal-after-transition")
-        c.may_raise("Exception", ensures=[f"set_eq({A}, old({A}))"])
+        c.req("transition != None and transition.source != None and event != None")
+        c.req(f"forall[Node](lambda n: implies(n in {A}, n != None))")
+        c.req(HWF_X)
+        c.req("ghost:self._is_processing")
+        c.ens(f"implies(legal(old({A})), legal({A}))", label="rt:legal-after-transition")
+        c.ens(f"implies(old(transition.target_str) == None or old(transition.target_str) == '', set_eq({A}, old({A})))", label="targetless-transition-keeps-the-configuration")
+        c.ens(ANN_X, label="configuration-holds-states")
+        c.ens(HWF_X, label="history-holds-states")
+        c.ens(APP0, label="ghost:queue-append-only")
+        c.ens("status_reach(old(self.status), self.status)", label="status-moves-along-allowed-edges")
+        c.ghost("exit_started", BOOL, init="False")
+        c.ghost("exitset", SetSort(Node))
+        c.ghost("rearmed", MapSort(Node, BOOL))
+        c.ghost("in_rearm", BOOL, init="False")
+        c.ghost("aborted", BOOL, init="False")
+        c.before("await self._exit_states(sorted(list(states_to_exit), key=lambda s: (s.depth, s.id), reverse=True), event)",
+                 "exit_started = True", "exitset = states_to_exit")
+        c.before("self._active_state_nodes.clear()", "aborted = True")
+        c.after("self._active_state_nodes.update(snapshot_before)", "in_rearm = True")
+        c.after("self._schedule_state_tasks(node)", "rearmed = store(rearmed, node, True)")
+        c.before("raise", "in_rearm = False")
+        c.ens("not final_aborted", label="ghost:an-aborted-transition-is-reported-not-swallowed")
+        c.may_raise("Exception", ensures=[
+            ("configuration-rolled-back-exactly", f"set_eq({A}, old({A}))"), ("queue-append-only", "ghost:" + APP0),
+            ("status-moves-along-allowed-edges", "status_reach(old(self.status), self.status)"), ("history-holds-states", HWF_X),
+            ("exited-states-timers-and-services-re-armed", f"ghost:implies(final_exit_started and not final_in_rearm, forall[Node](lambda n: implies(n in old({A}) and n in final_exitset, final_rearmed[n])))")])
+        CPN = "forall[int](lambda i: implies(0 <= i and i < len(combined_path), combined_path[i] != None))"
+        c.loop(0, inv=[]).loop(1, inv=[])
+        c.loop(2, inv=[CPN]).loop(3, inv=[CPN])
+        c.loop(4, inv=["aborted and in_rearm and exit_started", f"set_eq({A}, old({A}))",
+                       "forall[int](lambda j: implies(0 <= j and j < _i and _seq[j] in exitset, rearmed[_seq[j]]))", APP0])
+        c.loop(5, inv=[])
 
     # ---- the synchronous transition step: exit -> actions -> enter as ONE transaction (C07 atomicity) ---------
     @w.contract(SI + "_execute_transition_sync", props=["C07", "C01"])
@@ -83,7 +120,7 @@ def register(w):
         c.loop(0, inv=[CPN]).loop(1, inv=[CPN])
         c.loop(2, inv=["aborted and in_rearm and exit_started",
                        f"set_eq({A}, old({A}))",
-                       "forall[int](lambda j: implies(0 <= j and j < _i and _seq[j] in exitset, rearmed[_seq[j]]))"])
+                       "forall[int](lambda j: implies(0 <= j and j < _i and _seq[j] in exitset, rearmed[_seq[j]]))", APP0])
 
     @w.contract(SI + "_resolve_target_state_robustly", props=["C07"])
     def _(c):
@@ -94,34 +131,14 @@ def register(w):
         c.ens("result != None")
         c.may_raise("Exception")
 
-    @w.contract(BI + "_schedule_state_tasks", props=["C08"])
-    def _(c):
-        c.trusted = "assumed frame: arms timers / starts services of one state (timer and actor tables only); a missing service raises"
-        c.no_runtime = True
-        c.param("state", Node)
-        c.mod(*TASKS)
-        c.may_raise("Exception")
-
     PE_MODS = [A, "self._history", "self.context", "self.status", "self.output", "self.error", "self._action_depth",
                "self._event_queue", "self.g_accepted", *TASKS, "Flag.is_set", "Trans.target_str"]
     HWF = "forall[str, int](lambda k, i: implies(k in self._history and 0 <= i and i < len(self._history[k]), self._history[k][i] != None))"
     ANN_ = "forall[Node](lambda n: implies(n in self._active_state_nodes, n != None))"     # the configuration holds states
     APP_PE = "appended_only(old(self._event_queue), old(self.g_accepted), self._event_queue, self.g_accepted)"
 
-    @w.contract(BI + "_process_event", props=["C01", "C02"])
-    def _(c):
-        c.bounded_only = True
-        c.param("event", Ev)
-        c.mod(*PE_MODS)
-        c.req(f"legal({A})")
-        c.ens(f"legal({A})", label="legal-after-event")
-        c.ens(APP_PE, label="ghost:queue-append-only")
-        c.ens("status_reach(old(self.status), self.status)", label="status-moves-along-allowed-edges")
-        c.may_raise("Exception", ensures=[f"legal({A})", "ghost:" + APP_PE, "status_reach(old(self.status), self.status)"])
-
     # the synchronous macrostep: select, then run each nominated transition (C02)
-    @w.contract(SI + "_process_event", props=["C01", "C02", "C07"])
-    def _(c):
+    def process_event_clauses(c, step_stmt):
         c.param("event", Ev)
         c.mod(*PE_MODS)
         c.req(f"legal({A})", "event != None", HWF, ANN_)
@@ -143,12 +160,22 @@ def register(w):
                 f"and forall[Flag](lambda f: f.is_set == old(f.is_set))")
         c.ens(f"implies(len(final_transitions) == 0, {NOOP})", label="ghost:event-without-nominee-changes-nothing")
         c.ghost("fired", INT, init="0")
-        c.after("self._execute_transition_sync(transition, event)", "fired = fired + 1")
+        c.after(step_stmt, "fired = fired + 1")
         c.ens("final_fired <= len(final_transitions)", label="ghost:no-transition-outside-the-nominated-set-runs")
         c.ens("implies(len(final_transitions) == 1, final_fired == 1)", label="ghost:a-single-nominee-always-fires")
         c.may_raise("Exception", ensures=["assume:" + f"legal({A})", "ghost:" + APP_PE, "status_reach(old(self.status), self.status)", ANN_, HWF])
         c.loop(0, inv=["fired <= _i", "implies(len(transitions) == 1, fired == _i)", APP_PE, "status_reach(old(self.status), self.status)",
                        f"forall[Node](lambda n: implies(n in {A}, n != None))", HWF])
+
+
+    @w.contract(SI + "_process_event", props=["C01", "C02", "C07"])
+    def _(c):
+        process_event_clauses(c, "self._execute_transition_sync(transition, event)")
+
+    # the asyncio macrostep: the same body with awaits (C05: both engines satisfy one contract)
+    @w.contract(BI + "_process_event", props=["C01", "C02", "C07", "C05"])
+    def _(c):
+        process_event_clauses(c, "await self._execute_transition(transition, event)")
 
     # ---- callees of the exit/entry routines -----------------------------------------------------------
     @w.contract("xstate_statemachine.interpreter:Interpreter._cancel_state_tasks", props=["C08"])
@@ -201,11 +228,25 @@ def register(w):
         for k in (1, 2, 3):
             c.loop(k, inv=[])
 
-    @w.contract("xstate_statemachine.interpreter:Interpreter._execute_actions", props=["C07"])
+    @w.contract("xstate_statemachine.interpreter:Interpreter._execute_actions", props=["C07", "C05"])
     def _(c):
-        c.trusted = ("assumed for the asyncio engine (same clauses as the proved SyncInterpreter._execute_actions; the async body awaits "
-                     "coroutine actions, which the VC generator does not model); bounded: bounded.c07 fault injection on both engines")
+        # the asyncio twin: same clauses as the sync body (C05: the engines agree because their bodies satisfy the same contract);
+        # `await` is dropped by the extraction (A-seq), asyncio.CancelledError is passed through by the code and never raised by a modelled callee
         exec_actions_clauses(c)
+        c.user_effect = "action"
+        c.ghost("nran", INT, init="0")
+        c.ghost("failed", BOOL, init="False")
+        c.after("await self._spawn_actor(action_def, event)", "nran = nran + 1")
+        c.after("await self._execute_builtin_action(canonical, action_def, event)", "nran = nran + 1")
+        c.after("await action_callable(self, self.context, event, action_def)", "nran = nran + 1")
+        c.after("action_callable(self, self.context, event, action_def)", "nran = nran + 1")
+        c.before("return#2", "failed = True")
+        c.before("return#3", "failed = True")
+        c.ens("implies(not final_failed, final_nran == len(actions))", label="ghost:every-action-runs-unless-one-fails")
+        c.ens("implies(final_failed, final_nran < len(actions))", label="ghost:a-failure-skips-the-rest-of-this-list-only")
+        c.loop(0, inv=["nran == _i", "not failed", "self._action_depth == old(self._action_depth)", KEEP[0], APPENDED, SHRINK, MONO_])
+        for k in (1, 2, 3):
+            c.loop(k, inv=[])
 
     @w.contract(SI + "_execute_builtin_action", also=["xstate_statemachine.interpreter:Interpreter._execute_builtin_action"], props=["C07"])
     def _(c):
